@@ -16,6 +16,16 @@ GNext == /\ Len(hist) < Depth
          /\ IF Mode = "c14" THEN NextC14 ELSE IF Mode = "c14f" THEN NextC14F ELSE NextC11
          /\ hist' = Append(hist, Op(res'))
 GSpec == GInit /\ [][GNext]_<<vars, hist>>
+\* focused C14 generator: start where the file context "A" already counts two cached chunks (from then on
+\* pinning under that context rewrites the gc entry outside the batch, i.e. operations have several storage writes)
+FPrefix == << [op |-> "put", mode |-> "request", root |-> "A", chs |-> <<<<"A", 1>>>>],
+              [op |-> "put", mode |-> "request", root |-> "A", chs |-> <<<<"B", 1>>>>] >>
+GInitF == /\ m = [a \in Addr |-> IF a \in {"A", "B"} THEN 1 ELSE Absent]
+          /\ pin = [a \in Addr |-> 0]
+          /\ cached = [r \in Roots |-> IF r = "A" THEN {"A", "B"} ELSE {}]
+          /\ res = [op |-> "init"] /\ hist = FPrefix
+GNextF == /\ Len(hist) < Depth /\ NextC14F /\ hist' = Append(hist, Op(res'))
+GSpecF == GInitF /\ [][GNextF]_<<vars, hist>>
 EdgeView == <<m, pin, cached, res>>
 Scn == [par |-> [mode |-> IF Mode = "c11" THEN "c11" ELSE "c14"], ops |-> hist]
 EmitAll  == hist # <<>> => PrintT(<<"SCN", ToJson(Scn)>>)
